@@ -1,0 +1,13 @@
+//go:build verif
+
+package gohbase
+
+// VerifHook is set by the verification harness (build tag "verif") to observe
+// or pause the client at named points. It is nil in normal use.
+var VerifHook func(point string, c any, arg any)
+
+func vhook(point string, c any, arg any) {
+	if h := VerifHook; h != nil {
+		h(point, c, arg)
+	}
+}
